@@ -93,18 +93,22 @@ func exec1(in string, partial *[]string) string {
 var classAlpha = []byte{'a', ' ', '\n', '\\', '\'', '"'}
 var metaAlpha = []byte{'a', ' ', '\'', '"', '\\', '$', '*', '\n', '\t', '#', '~', '=', ';', '`', 0x80, '!', '{', '-', '%', '[', '?', '|', '&', '<', '>', '(', ')', 0xff}
 
+// allStrings calls f on every string over alpha of length 0..maxLen, shortest first (so that the
+// first failing case reported is a minimal one).
 func allStrings(alpha []byte, maxLen int, f func(s string)) {
 	var rec func(cur []byte, n int)
 	rec = func(cur []byte, n int) {
-		f(string(cur))
 		if n == 0 {
+			f(string(cur))
 			return
 		}
 		for _, a := range alpha {
 			rec(append(cur[:len(cur):len(cur)], a), n-1)
 		}
 	}
-	rec(nil, maxLen)
+	for l := 0; l <= maxLen; l++ {
+		rec(nil, l)
+	}
 }
 
 func randString(r *tr.Rand, alpha []byte, maxLen int) string {
